@@ -8,6 +8,14 @@
 //	        surrounding bytes)
 //	part B  framing plaintexts x every protect entry point x every ordered pair (prefix, suffix)
 //	        of the surrounding-bytes menu x every column-processor chain accepting the form
+//	part L  (sweep.go) complete sweep of a contiguous range of lengths, one fill: every plaintext
+//	        length 0..N through every protect and every accepting reveal entry point (L1), through
+//	        the column-processor chains between tag-symbol prefixes/suffixes (L2), and as the
+//	        length of the plaintext inside a whole protected value that is itself the input of
+//	        every protect entry point (L3, clause (c)). Parts A and B take lengths from the menu of
+//	        header sizes +-1 only; a particular value of a byte of a length field (e.g. equal to a
+//	        tag symbol) recurs once per 256 lengths and is met only by a dense range.
+//	part S  (rows.go) sessions of several values through one column-processor chain
 //
 // Oracle (owner identity alpha_1 everywhere):
 //
@@ -26,6 +34,8 @@
 // length up to 65536 for every producer; part B with every fill at the 16 header-size lengths
 // plus 48 plaintexts embedding whole envelopes. (The framing menu is crossed with this stated
 // subset of plaintexts, not with all of part A: that product has ~2*10^8 elements.)
+// Part L: quick N = 767 (L1, L2), inner lengths 1..299 (L3, own client); thorough N = 4352 for
+// all three, L3 also with envelopes of the other client.
 //
 // Every deliberately permissive choice is marked "PERMISSIVE" below.
 package main
@@ -146,11 +156,17 @@ type ptSpec struct {
 	Embed string `json:"embed,omitempty"`       // stored form of the embedded whole envelope
 	Owner string `json:"embed_owner,omitempty"` // own | other
 	At    string `json:"embed_at,omitempty"`    // start | middle | end
+	// InnerLen > 0 (length sweep, part L3): the embedded envelope is not the fixed one of the setup
+	// but one made for this plaintext, protecting the "count" fill of this length
+	InnerLen int `json:"embed_inner_len,omitempty"`
 }
 
 func (s ptSpec) String() string {
 	if s.Embed == "" {
 		return fmt.Sprintf("len=%d fill=%s", s.Len, s.Fill)
+	}
+	if s.InnerLen > 0 {
+		return fmt.Sprintf("len=%d fill=%s + whole %s envelope (%s client, protecting %d bytes) at %s", s.Len, s.Fill, s.Embed, s.Owner, s.InnerLen, s.At)
 	}
 	return fmt.Sprintf("len=%d fill=%s + whole %s envelope (%s client) at %s", s.Len, s.Fill, s.Embed, s.Owner, s.At)
 }
@@ -221,12 +237,27 @@ func newSetup(l *envl.Lab) *setup {
 }
 
 func (s *setup) build(spec ptSpec) plaintext {
+	p, ok := s.buildOK(spec)
+	if !ok {
+		ev.Fatalf("cannot build plaintext [%v]: %s", spec, s.layoutSuspect)
+	}
+	return p
+}
+
+// buildOK: false only for a length-sweep plaintext whose envelope Acra does not produce in the
+// documented layout (noted in layoutSuspect).
+func (s *setup) buildOK(spec ptSpec) (plaintext, bool) {
 	base := fill(spec.Fill, spec.Len)
 	p := plaintext{spec: spec, data: base}
 	if spec.Embed != "" {
 		e, ok := s.embeds[spec.Embed+"/"+spec.Owner]
 		if !ok {
 			ev.Fatalf("unknown embedding %s/%s", spec.Embed, spec.Owner)
+		}
+		if spec.InnerLen > 0 {
+			if e, ok = s.buildSwept(spec); !ok {
+				return p, false
+			}
 		}
 		at := 0
 		switch spec.At {
@@ -250,7 +281,7 @@ func (s *setup) build(spec ptSpec) plaintext {
 		}
 	}
 	s.classify(&p)
-	return p
+	return p, true
 }
 
 func (s *setup) classify(p *plaintext) {
@@ -694,7 +725,7 @@ func frameClass(pre, suf item) string {
 }
 
 // reveal runs every accepting reveal entry point on the stored value (part A).
-func (c *checker) revealAll(p envl.Producer, pt *plaintext, stored []byte, demand int, protOutcome string) {
+func (c *checker) revealAll(hist string, p envl.Producer, pt *plaintext, stored []byte, demand int, protOutcome string) {
 	r := c.r
 	want := pt.data
 	if demand == demandInner {
@@ -769,7 +800,7 @@ func (c *checker) revealAll(p envl.Producer, pt *plaintext, stored []byte, deman
 			}
 		}
 		r.Distinct(p.Name + "|" + rv.Name + "|" + pt.xclass + "|" + protOutcome + "|" + outcome)
-		r.Class("A:"+pt.class+":"+protOutcome+":"+outcome, 1)
+		r.Class(hist+":"+pt.class+":"+protOutcome+":"+outcome, 1)
 	}
 	if demand == demandAgreement && len(successes) > 1 {
 		r.Eval(1)
@@ -784,27 +815,30 @@ func (c *checker) revealAll(p envl.Producer, pt *plaintext, stored []byte, deman
 }
 
 // jobA: one plaintext through one protect entry point and all accepting reveal entry points.
-func (c *checker) jobA(p envl.Producer, pt *plaintext) {
+// hist: prefix of the outcome-histogram classes ("A"; "L1"/"L3" for the length sweep).
+func (c *checker) jobA(hist string, p envl.Producer, pt *plaintext) {
 	stored, demand, outcome := c.protect(p, pt, true)
 	if demand == demandNothing {
 		c.r.Distinct(p.Name + "|-|" + pt.xclass + "|" + outcome)
 		if outcome == "protect-refused" {
-			c.r.Class("A:"+pt.class+":"+outcome+":"+p.Name, 1)
+			c.r.Class(hist+":"+pt.class+":"+outcome+":"+p.Name, 1)
 			return
 		}
-		c.r.Class("A:"+pt.class+":"+outcome, 1)
+		c.r.Class(hist+":"+pt.class+":"+outcome, 1)
 		return
 	}
-	c.revealAll(p, pt, stored, demand, outcome)
+	c.revealAll(hist, p, pt, stored, demand, outcome)
 }
 
 // jobB: one plaintext, one protect entry point, one prefix; all suffixes x column chains.
-func (c *checker) jobB(p envl.Producer, pt *plaintext, menu []item, pi int) {
+// hist: prefix of the outcome-histogram classes ("B"; "L2" for the length sweep, whose menu is a
+// sub-menu of part B's).
+func (c *checker) jobB(hist string, p envl.Producer, pt *plaintext, menu []item, pi int) {
 	r := c.r
 	stored, demand, outcome := c.protect(p, pt, false)
 	if demand != demandRoundTrip {
 		// pass-through / refusal / protect-side violation: judged in part A, nothing to frame
-		r.Class("B:not-framed:"+outcome, 1)
+		r.Class(hist+":not-framed:"+outcome, 1)
 		return
 	}
 	pre := menu[pi]
@@ -837,7 +871,7 @@ func (c *checker) jobB(p envl.Producer, pt *plaintext, menu []item, pi int) {
 					c.mkCase("B", p, rv.Name, pt, pre.Name, suf.Name))
 			}
 			r.Distinct(p.Name + "|" + rv.Name + "|" + pt.xclass + "|" + frameClass(pre, suf) + "|" + cls)
-			r.Class("B:"+frameClass(pre, suf)+":"+cls, 1)
+			r.Class(hist+":"+frameClass(pre, suf)+":"+cls, 1)
 		}
 	}
 }
@@ -890,11 +924,11 @@ func main() {
 			menu := s.menu(prod.Form)
 			for pi := range menu {
 				if menu[pi].Name == cs.Prefix {
-					c.jobB(*prod, &pt, menu, pi)
+					c.jobB("B", *prod, &pt, menu, pi)
 				}
 			}
 		} else {
-			c.jobA(*prod, &pt)
+			c.jobA("A", *prod, &pt)
 		}
 		finish()
 	}
@@ -980,7 +1014,10 @@ func main() {
 		}
 	}
 
-	r.States(len(pts) + len(libPts))
+	// ---- part L: complete sweep of a contiguous range of lengths (sweep.go) -----------------
+	sw := s.newSweep(r, lengthsAll, pts, menus)
+
+	r.States(len(pts) + len(libPts) + sw.newStates)
 	for i := 0; i < len(jobs); i += len(jobs)/5 + 1 {
 		j := jobs[i]
 		cs := c.mkCase(j.part, s.prods[j.prod], "", j.pt, "", "")
@@ -991,13 +1028,39 @@ func main() {
 		}
 		r.Sample(cs)
 	}
+	for _, i := range []int{sw.n1 / 2, sw.n1 + sw.n2/2, sw.n1 + sw.n2 + sw.n3/2} {
+		if i < len(sw.jobs) {
+			j := sw.jobs[i]
+			cs := c.mkCase(j.part, s.prods[j.prod], "", j.pt, "", "")
+			cs.PtHex = ""
+			if j.part == "B" {
+				cs.Prefix, cs.Suffix = j.menu[j.pre].Name, "(both of the sub-menu)"
+			}
+			r.Sample(cs)
+		}
+	}
+	doneL := par.Do(len(sw.jobs), r.Expired, func(i int) {
+		j := sw.jobs[i]
+		p := s.prods[j.prod]
+		switch {
+		case j.part == "B":
+			c.jobB("L2", p, j.pt, j.menu, j.pre)
+		case j.pt.class == "exact":
+			c.jobA("L3", p, j.pt)
+		default:
+			c.jobA("L1", p, j.pt)
+		}
+	})
+	if doneL < len(sw.jobs) {
+		r.Capped(fmt.Sprintf("wall budget: %d of %d jobs of the length sweep done (L1 = first %d jobs, ordered by length, then L2 = %d jobs, then L3)", doneL, len(sw.jobs), sw.n1, sw.n2))
+	}
 	done := par.Do(len(jobs), r.Expired, func(i int) {
 		j := jobs[i]
 		p := s.prods[j.prod]
 		if j.part == "A" {
-			c.jobA(p, j.pt)
+			c.jobA("A", p, j.pt)
 		} else {
-			c.jobB(p, j.pt, menus[p.Form], j.pre)
+			c.jobB("B", p, j.pt, menus[p.Form], j.pre)
 		}
 	})
 	if done < len(jobs) {
@@ -1018,6 +1081,9 @@ func main() {
 	r.Rule("state = one distinct plaintext (length x fill x embedding of a whole envelope {4 kinds x own/other client x start/middle/end}, duplicates by bytes removed); " +
 		"part A: every plaintext x every protect entry point x every reveal entry point accepting the produced form (transition = one protect or reveal call, trace = protect+reveal); " +
 		"part B: framing plaintexts x every protect entry point x all ordered (prefix, suffix) pairs of the 16-item surrounding-bytes menu x every column-processor chain accepting the form; " +
+		"part L (length sweep, one fill): L1 every plaintext length 0..N x every protect entry point x every accepting reveal entry point; " +
+		"L2 every plaintext length 1..N x the library-level protect entry point of each stored form x all ordered (prefix, suffix) pairs of the sub-menu {none, 3 quotes (raw envelopes) / 2 percent signs (containers, searchable values)} x every accepting column-processor chain; " +
+		"L3 plaintext = one whole protected value (4 kinds) whose inner plaintext has every length 1..M x every protect entry point (+ reveal where the value is wrapped or re-encrypted); " +
 		"distinct_nontrivial counts distinct (protect entry point, reveal entry point, plaintext class, framing class, outcome class) tuples")
 	r.Set("lengths_full_product", lengthsAll)
 	r.Set("lengths_library_producers_only", lengthsLibOnly)
@@ -1038,10 +1104,12 @@ func main() {
 	}(), ","))
 	r.Set("jobs_part_A", nA)
 	r.Set("jobs_part_B", len(jobs)-nA)
+	sw.record(r)
 	r.Assume("Themis is replaced by the pure-Go stand-in /verif/shim/gothemis (same layouts and sizes, refuses empty messages like Themis)",
 		"nonces/ephemeral keys of the values protected during the parallel phase come from one shared deterministic stream, so ciphertext bytes differ between runs; the oracle depends only on plaintexts, lengths and structure",
 		"owner identity alpha_1 with one key rotation; the other client is bravo_2",
-		"a second envelope in the surrounding bytes is of the same framing family as the stored value (raw next to raw, container next to container)")
+		"a second envelope in the surrounding bytes is of the same framing family as the stored value (raw next to raw, container next to container)",
+		"length sweep: the length classes that matter are values of single bytes of the little-endian length fields; a contiguous range 0..N (N >= 767) shows every value of every low byte at least 3 times and every second-byte value up to N/256; classes of the third and higher bytes are reached only at the lengths 65535/65536 of part A")
 	phaseKeyIDCollision(r)
 	finish()
 }
